@@ -419,6 +419,19 @@ theorem offset_isSome_iff : ∀ (bs : List (Int × Int)) (is : List Int),
         intro h
         exact hb ⟨h.1, h.2.1⟩
 
+
+/-! ### a shifted section enumerates the shifted elements (stride kept, as `normalize_array_shape_and_access` does since its fix) -/
+
+/-- **normalize_section**: the section `a:b:s` of a dimension declared `lo:hi`, rewritten to `a-lo+1 : b-lo+1 : s`, has the same
+number of elements and its k-th element is the normalised k-th element of the original section -/
+theorem normalize_section (lo a b s : Int) :
+    LokiModel.Fir.tripCount (a - lo + 1) (b - lo + 1) s = LokiModel.Fir.tripCount a b s ∧
+    ∀ k : Nat, (a - lo + 1) + (k : Int) * s = (a + (k : Int) * s) - lo + 1 := by
+  refine ⟨?_, fun k => by omega⟩
+  simp only [LokiModel.Fir.tripCount]
+  have : b - lo + 1 - (a - lo + 1) + s = b - a + s := by omega
+  rw [this]
+
 example : flatF 1 [2, 3, 4] [2, 3, 4] = 24 := by decide
 example : flatF 0 [2, 3] [1, 2] = 5 := by decide
 example : flatC 0 [3, 2] [2, 1] = 5 := by decide
